@@ -22,7 +22,7 @@ def gen_result(rng, m):
         ins = []
         for _ in range(rng.randint(0, 4)):
             s = rng.choice([{"k": "all"}, {"k": "build"}, {"k": "launch"}, {"k": "process", "p": bl(rng.choice(["web", "w2"]))}])
-            ins.append({"s": s, "b": rng.choice(list(BEH_COQ)), "n": bl(rng.choice(["PATH", "X", "Y_Z"])), "v": bl(rng.choice(["", "v", "/a:/b"]))})
+            ins.append({"s": s, "b": rng.choice(list(BEH_COQ)), "n": bl(rng.choice(["PATH", "X", "Y_Z", "app.name", "app.port", ".hid"])), "v": bl(rng.choice(["", "v", "/a:/b"]))})
     progs = {}
     for _ in range(rng.choice([0, 0, 1, 2])):
         progs[rng.choice(["p1", "p2", "x.sh"])] = [rng.choice([0o755, 0o700, 0o644]), bl(rng.choice(["#!/bin/sh\n", "bin", ""]))]
